@@ -55,14 +55,15 @@ ASSUMPTIONS = [
     "deliveries cannot change the multiset of later deliveries",
     "PartitionLink.latency override and packet_loss are not used (the statement quantifies over delays that respect the minimum)",
     "deliveries later than end_time are outside the statement",
+    "a sender may retract (cancel) an emitted cross-partition event only two or more windows before it is due",
     "daemon events are generated only together with an explicit end_time (with no end_time the sequential engine "
-    "auto-terminates on primary events while partitions run their heaps dry, which differs by definition); no cancelled events",
+    "auto-terminates on primary events while partitions run their heaps dry, which differs by definition)",
 ]
 EXPECTED_PROBES = ["probe.cross_event_delivered", "probe.event_on_window_boundary", "probe.idle_partition_then_cross",
                    "probe.window_eq_min_latency", "probe.pingpong", "probe.independent_partitions", "probe.threads_mode",
                    "probe.daemon_events_with_end_time", "probe.nonzero_start_time", "probe.end_given_as_duration",
                    "probe.outage_dropped_a_delivery", "probe.future_parked_across_windows", "probe.link_declared_twice",
-                   "probe.decoy_model_constructed", "probe.source_inside_partition", "probe.partition_with_trace_recorder"]
+                   "probe.decoy_model_constructed", "probe.source_inside_partition", "probe.partition_with_trace_recorder", "probe.cross_event_retracted_by_sender"]
 SHRINK_SKIP = ("n_kinds",)
 
 LAT_NS = [1_000_000, 100_000_000, 700_000_000, 1_000_000_000]
@@ -116,8 +117,12 @@ def gen(rng, tier):
                 dt = lat + rng.choice([0, 0, 1, w_ns, lat, 3 * w_ns - 1])
             else:
                 dt = rng.choice([0, 0, 1, w_ns - 1, w_ns, w_ns + 1, 2 * w_ns, w_ns // 2 + 1, 7 * w_ns])
-            out.append({"dt": max(0, dt), "to": to, "k": rng.randint(k + 1, n_kinds - 1),
-                        "daemon": rng.random() < 0.25})
+            em = {"dt": max(0, dt), "to": to, "k": rng.randint(k + 1, n_kinds - 1), "daemon": rng.random() < 0.25}
+            if a != b and dt >= 3 * w_ns and rng.random() < 0.3:
+                # the sender keeps the handle and retracts the message well before it is due (at least two windows
+                # earlier: a later cancel would be an influence faster than the declared minimum latency)
+                em["cancel_after"] = rng.choice([0, 1, w_ns // 2, dt - 2 * w_ns])
+            out.append(em)
         return out
 
     handlers = {}
@@ -230,14 +235,20 @@ class World:
         self.entities = [PEntity(i, self) for i in range(len(self.ent_part))]
         self.cross_sent = 0
         self.fut_cross_window = 0
+        self.retracted = 0
         lm = min(sc["links"].values()) if sc["links"] else 100_000_000
         self.w_ns = (lm if sc["window"] is None else max(1, int(sc["window"] * 1e9))) or 1
 
     def make(self, now, emits):
         out = []
         for e in emits:
-            out.append(Event(time=Instant(now + e["dt"]), event_type=f"k{e['k']}", target=self.entities[e["to"]],
-                             daemon=bool(e.get("daemon", False))))
+            ev = Event(time=Instant(now + e["dt"]), event_type=f"k{e['k']}", target=self.entities[e["to"]],
+                       daemon=bool(e.get("daemon", False)))
+            out.append(ev)
+            if e.get("cancel_after") is not None:
+                self.retracted += 1
+                out.append(Event.once(time=Instant(now + e["cancel_after"]), event_type="retract",
+                                      fn=lambda _e, ev=ev: ev.cancel(), daemon=bool(e.get("daemon", False))))
         return out
 
     def sources_of(self, part: int | None = None):
@@ -292,10 +303,14 @@ def _validate(sc):
     if sc["window"] is not None and (lmin is None or sc["window"] <= 0 or sc["window"] > lmin / 1e9):
         raise InvalidScenario("window out of range")
 
+    w_chk = (lmin if sc["window"] is None else max(1, int(sc["window"] * 1e9))) if lmin else 100_000_000
+
     def chk(src, k, emits):
         for e in emits:
             if not (0 <= e["to"] < n_ent) or not (k < e["k"] < nk) or e["dt"] < 0:
                 raise InvalidScenario("bad emit")
+            if e.get("cancel_after") is not None and not (0 <= e["cancel_after"] <= e["dt"] - 2 * w_chk):
+                raise InvalidScenario("a retraction must precede the arrival by two windows")
             a, b = ent_part[src], ent_part[e["to"]]
             if a != b:
                 lat = sc["links"].get(f"{a}>{b}")
@@ -684,6 +699,7 @@ def run(sc):
         "probe.end_given_as_duration": int(bool(sc.get("use_duration")) and end is not None),
         "probe.outage_dropped_a_delivery": int(bool(sc.get("outages")) and _outage_effective(sc, seq)),
         "probe.future_parked_across_windows": int(seq.fut_cross_window > 0),
+        "probe.cross_event_retracted_by_sender": int(seq.retracted > 0 and cross > 0),
         "probe.source_inside_partition": int(bool(sc.get("sources"))),
         "probe.partition_with_trace_recorder": int(bool(sc.get("traced_parts")) and cross > 0),
         "probe.link_declared_twice": int(bool(sc.get("dup_links")) and cross > 0),
